@@ -23,6 +23,9 @@
       look-ahead the structural model uses.  The tokenizer, the list splitter
       and the redirection parser themselves are structural recursions over
       the characters / tokens without any other partial operation.
+    - [C05_alias_total]: the second loop of alias expansion never removes or
+      inserts out of range, whatever number of words an alias value
+      tokenizes to (zero included);
     - [C05_full]: whatever tokens expansion delivers, if they plan, the
       first-word look-ups of run_proc / run_pipeline (index [0] of a stage's
       token list, core.rs try_run_func and types.rs is_builtin) do not
@@ -42,7 +45,8 @@
     terminate by construction in /repo), the calculator (C19: recursion depth),
     the regex crate, pest, lineread. *)
 From Cicada Require Import Base.Chars Base.Tag Model.Tokenizer Model.Redirect Model.Cmds
-  Model.Highlight Model.WordStart Model.FirstWord Model.C05Classes
+  Model.Highlight Model.WordStart Model.FirstWord Model.C05Classes Model.Alias Model.AliasSites
+  Proofs.AliasSitesProofs
   Proofs.HighlightProofs Proofs.FirstWordProofs.
 
 Theorem C05_highlight_total : forall line toks,
@@ -73,6 +77,31 @@ Theorem C05_tokenizer_lookups :
   (forall l i, (i < length l)%nat -> exists b, rparen_guarded l i = Ok b) /\
   (forall (r : list token), exists o, last_guarded r = Ok o).
 Proof. exact (conj lookahead_guarded_ok (conj rparen_guarded_ok (@last_guarded_ok token))). Qed.
+
+(** Alias expansion (shell.rs expand_alias, a stage of do_expansion): the
+    [Vec::remove] / [Vec::insert] calls of its second loop are never out of
+    range -- for ANY alias table, ANY token list and ANY tokenizer, i.e. for
+    alias values that tokenize to zero words (only blanks, a comment), one
+    word or many -- and the result is C17's total [expand_alias]. *)
+Theorem C05_alias_total : forall (tokenize : str -> list Alias.token) t toks,
+  expand_alias_sites tokenize t toks = Ok (Alias.expand_alias tokenize t toks).
+Proof. exact expand_alias_sites_total. Qed.
+
+Theorem C05_alias_total_parse_line : forall t toks,
+  exists r, expand_alias_sites parse_line t toks = Ok r.
+Proof. intros. eexists. apply expand_alias_sites_total. Qed.
+
+(** Non-vacuity: [b] is an alias for two blanks, [n] for a comment, [l] for two words;
+    the line [n] becomes empty, [x | b] keeps only [x |], [l | n | l z] expands both heads *)
+Example C05_alias_nonvacuous :
+  let t := [([98%N], [32%N; 32%N]); ([110%N], [35%N; 99%N]); ([108%N], [108%N; 115%N; 32%N; 45%N; 108%N])] in
+  expand_alias_sites parse_line t [(TNone, [110%N])] = Ok [] /\
+  expand_alias_sites parse_line t [(TNone, [120%N]); (TNone, [124%N]); (TNone, [98%N])] =
+    Ok [(TNone, [120%N]); (TNone, [124%N])] /\
+  expand_alias_sites parse_line t [(TNone, [108%N]); (TNone, [124%N]); (TNone, [110%N]); (TNone, [124%N]); (TNone, [108%N]); (TNone, [122%N])] =
+    Ok [(TNone, [108%N; 115%N]); (TNone, [45%N; 108%N]); (TNone, [124%N]); (TNone, [124%N]);
+        (TNone, [108%N; 115%N]); (TNone, [45%N; 108%N]); (TNone, [122%N])].
+Proof. repeat split; vm_compute; reflexivity. Qed.
 
 (** The full statement for the planner: whatever tokens expansion delivers,
     if they plan, the first-word look-ups do not panic. *)
@@ -148,6 +177,8 @@ Print Assumptions C05_word_start_total.
 Print Assumptions C05_from_tokens_total.
 Print Assumptions C05_plan_total.
 Print Assumptions C05_tokenizer_lookups.
+Print Assumptions C05_alias_total.
+Print Assumptions C05_alias_total_parse_line.
 Print Assumptions C05_full.
 Print Assumptions C05_regression.
 Print Assumptions C05_fix_conservative.
